@@ -73,7 +73,7 @@ func replayNode(like *world.Node, log []storage.Message) (*world.Node, *world.Me
 }
 
 func checkC08(c *Ctx) {
-	c.Rule = "logs recorded from reference worlds (honest key generation + signing with slow signers; a key generation cancelled by an error report; two rounds interleaved on one board; logs salted with rejected, duplicated and junk messages) are replayed on fresh nodes carrying a recorded node's identity: (a) the live node vs replays under 'one message per poll', 'everything in one poll' and 5 random poll splits; (b) the same after the real ResetFSMState path; (c) every pair of live nodes after every prefix, outside the per-recipient deal phase; (d) each round replayed alone vs inside the interleaved log. Compared: public time-free projection of the round, signature store, final offset. Every world ends with a proposal that is rejected after the round's action ran (baked range outside the list) followed by an ordinary one, so that nodes which lived through a rejected message are compared with restarted ones. Worlds with name twins (alice/Alice); one replay per world through the repository's own Poll() loop; one replay per node of the log without other participants' private messages. distinct = distinct (log kind, comparison kind, split/prefix) comparisons"
+	c.Rule = "logs recorded from reference worlds (honest key generation + signing with slow signers; a key generation cancelled by an error report; two rounds interleaved on one board; logs salted with rejected, duplicated and junk messages) are replayed on fresh nodes carrying a recorded node's identity: (a) the live node vs replays under 'one message per poll', 'everything in one poll' and 5 random poll splits; (b) the same after the real ResetFSMState path; (c) every pair of live nodes after every prefix, outside the per-recipient deal phase; (d) each round replayed alone vs inside the interleaved log. Compared: public time-free projection of the round, signature store, final offset. Every world ends with a proposal that is rejected after the round's action ran (baked range outside the list) followed by an ordinary one, so that nodes which lived through a rejected message are compared with restarted ones. Worlds with name twins (alice/Alice); one replay per world through the repository's own Poll() loop; one replay per node of the log without other participants' private messages. Worlds cancelled by a differing group key; unsigned rows (no signature key) behind signed broadcasts in the file-board replays. distinct = distinct (log kind, comparison kind, split/prefix) comparisons"
 	c.Assumptions = []string{"timestamps within the confirmation deadlines (property's own proviso)", "MemState", "the replaying node never answers operations: a round's state must not depend on them"}
 	// "name-twins": participants whose names differ in letter case / surrounding blanks only (the proposal
 	// validation accepts them as different users; private messages are addressed by name)
@@ -491,6 +491,27 @@ func judgeFileBoard(c *Ctx, kind string, seed uint64, w *world.World, rounds []s
 		salted = append(salted[:j], append([]storage.Message{m}, salted[j:]...)...)
 		dups++
 	}
+	// unsigned rows: right behind a genuine, signed broadcast the same payload appears once more without any
+	// signature (the key is absent from the line), addressed to another round of the log where there is one
+	unsigned := 0
+	for k := 0; k < 4; k++ {
+		i := r.Intn(len(salted))
+		m := salted[i]
+		if exempt(m.Event) || m.RecipientAddr != "" || m.Signature == nil {
+			continue
+		}
+		cp := m
+		cp.ID = fmt.Sprintf("unsigned-copy-%d", k)
+		cp.Signature = nil
+		for _, rd := range rounds {
+			if rd != m.DkgRoundID {
+				cp.DkgRoundID = rd
+			}
+		}
+		salted = append(salted[:i+1], append([]storage.Message{cp}, salted[i+1:]...)...)
+		unsigned++
+	}
+	c.Add("unsigned_rows_behind_signed_ones", unsigned)
 	fb, err := world.NewFileBoard(salted)
 	if err != nil {
 		c.Inconclusive("file board: %v", err)
